@@ -367,11 +367,13 @@ Record fc := mkFc {
   fc_map : rp
 }.
 
-(* with_lg_map_sizes.  Tables above 2^31 slots are outside the model (Stuck). *)
+(* with_lg_map_sizes (usize = u64).  Stuck mirrors the assertion lg_cur <= lg_max and, for the
+   debug profile, the overflow of `(1usize << lg_max) * LOAD_FACTOR_NUMERATOR` (lg_max = 63) and of
+   the shift itself (lg >= 64).  The table of 2^lg_cur slots is allocated here. *)
 Definition fc_with_lg (lg_max lg_cur : N) : outcome fc :=
   let lgm := N.max lg_max LG_MIN in let lgc := N.max lg_cur LG_MIN in
   if lgm <? lgc then Stuck
-  else if 31 <? lgc then Stuck
+  else if M64 <=? 2 ^ lgm * LOAD_NUM then Stuck
   else
     let m := rp_new lgc in
     Ok (mkFc lgm (rp_thr m) 0 0 (N.min SAMPLE_SIZE (cap_of_lg lgm)) m).
@@ -441,11 +443,14 @@ Definition u64_of_i64 (z : Z) : N := zN (Z.modulo z 18446744073709551616).
 Definition i64_of_u64 (n : N) : Z :=
   if n <? 9223372036854775808 then Nz n else (Nz n - 18446744073709551616)%Z.
 
+(* Repaired code (/repo "fix: frequencies serialize writes the full 8-byte preamble for an empty
+   sketch" and "fix: frequencies serialize must not write a purged-to-nothing sketch as the empty
+   image"; known_findings.d/C11-freq-*.json): the empty form is chosen iff the stream weight is
+   zero and it is a full preamble long. *)
 Definition fc_serialize (c : fc) : list N :=
-  if fc_is_empty c then
-    (* six bytes: the two unused bytes of the first preamble long are not written *)
+  if fc_weight c =? 0 then
     [ zN GenFreq.PREAMBLE_LONGS_EMPTY; zN GenFreq.SERIAL_VERSION; zN GenCodec.FAMILY_FREQUENCY_ID;
-      fc_lg_max c; rp_lg (fc_map c); zN GenFreq.EMPTY_FLAG_MASK ]
+      fc_lg_max c; rp_lg (fc_map c); zN GenFreq.EMPTY_FLAG_MASK ] ++ le_bytes 2 0
   else
     [ zN GenFreq.PREAMBLE_LONGS_NONEMPTY; zN GenFreq.SERIAL_VERSION; zN GenCodec.FAMILY_FREQUENCY_ID;
       fc_lg_max c; rp_lg (fc_map c); 0 ] ++ le_bytes 2 0
@@ -474,8 +479,17 @@ Fixpoint fc_load (c : fc) (items : list Z) (hashes values : list N) : outcome fc
   | _, _ => Ok c
   end.
 
-(* deserialize; [hashes] are the hashes of the image's items, in image order *)
-Definition fc_deserialize (bs : list N) (hashes : list N) : outcome fc :=
+(* deserialize; [hashes] are the hashes of the image's items, in image order.
+   Repaired code (/repo "fix: frequencies deserialize rejects an lg_max_map_size whose map size is
+   not representable", "... checks the payload length and the map capacity before allocating",
+   "... rejects counters and offset that exceed the stream weight"; known_findings.d/C14-freq-*.json).
+   usize = u64. *)
+Inductive fc_image : Type :=
+| ImgEmpty (lg_max lg_cur : N)
+| ImgFull (lg_max lg_cur weight offset : N) (values items : list N).
+
+(* everything deserialize does before it builds the map: reading and validation (no table yet) *)
+Definition fc_parse (bs : list N) : outcome fc_image :=
   if (length bs <? 8)%nat then Err else
   let pre := N.land (nth 0 bs 0) 63 in
   let ver := nth 1 bs 0 in let fam := nth 2 bs 0 in
@@ -483,25 +497,51 @@ Definition fc_deserialize (bs : list N) (hashes : list N) : outcome fc :=
   if negb (fam =? zN GenCodec.FAMILY_FREQUENCY_ID) then Err else
   if negb (ver =? zN GenFreq.SERIAL_VERSION) then Err else
   if lg_max <? lg_cur then Err else
+  (* 1usize.checked_shl(lg_max).and_then(|size| size.checked_mul(LOAD_FACTOR_NUMERATOR)).is_none() *)
+  if M64 <=? 2 ^ lg_max * LOAD_NUM then Err else
   if negb (N.land flags (zN GenFreq.EMPTY_FLAG_MASK) =? 0) then
-    if negb (pre =? zN GenFreq.PREAMBLE_LONGS_EMPTY) then Err else fc_with_lg lg_max lg_cur
+    if negb (pre =? zN GenFreq.PREAMBLE_LONGS_EMPTY) then Err else Ok (ImgEmpty lg_max lg_cur)
   else
     if negb (pre =? zN GenFreq.PREAMBLE_LONGS_NONEMPTY) then Err else
     if (length bs <? 32)%nat then Err else
     let active := le_val (firstn 4 (skipn 8 bs)) in
     let weight := le_val (firstn 8 (skipn 16 bs)) in
     let offset := le_val (firstn 8 (skipn 24 bs)) in
+    (* payload_size / 8 < active_items *)
+    if (N.of_nat (length bs) - zN GenFreq.PREAMBLE_LONGS_NONEMPTY * 8) / 8 <? active then Err else
+    (* active_items > cur_map_size / LOAD_FACTOR_DENOMINATOR * LOAD_FACTOR_NUMERATOR *)
+    if 2 ^ (N.max lg_cur LG_MIN) / LOAD_DEN * LOAD_NUM <? active then Err else
     match read_u64s (N.to_nat active) (skipn 32 bs) with
     | None => Err
     | Some (values, rest) =>
+        (* offset.checked_add(values...) is None or exceeds stream_weight (weight < 2^64) *)
+        if weight <? offset + sumN values then Err else
         match read_u64s (N.to_nat active) rest with
         | None => Err
-        | Some (items, _) =>
-            obind (fc_with_lg lg_max lg_cur) (fun c0 =>
-            obind (fc_load c0 (map i64_of_u64 items) hashes values) (fun c1 =>
-            Ok (mkFc (fc_lg_max c1) (fc_cur_cap c1) offset weight (fc_sample_size c1) (fc_map c1))))
+        | Some (items, _) => Ok (ImgFull lg_max lg_cur weight offset values items)
         end
     end.
+
+(* with_lg_map_sizes (the table is allocated here), the update loop, then weight and offset are set *)
+Definition fc_build (img : fc_image) (hashes : list N) : outcome fc :=
+  match img with
+  | ImgEmpty lg_max lg_cur => fc_with_lg lg_max lg_cur
+  | ImgFull lg_max lg_cur weight offset values items =>
+      obind (fc_with_lg lg_max lg_cur) (fun c0 =>
+      obind (fc_load c0 (map i64_of_u64 items) hashes values) (fun c1 =>
+      Ok (mkFc (fc_lg_max c1) (fc_cur_cap c1) offset weight (fc_sample_size c1) (fc_map c1))))
+  end.
+
+Definition fc_deserialize (bs : list N) (hashes : list N) : outcome fc :=
+  obind (fc_parse bs) (fun img => fc_build img hashes).
+
+(* what deserialize allocates (C14): the two vectors `values` and `items` (8 bytes per element,
+   requested only after the payload-length check), and the table of the announced current map. *)
+Definition fc_deser_vec_bytes (bs : list N) : N :=
+  if (length bs <? 32)%nat then 0 else
+  let active := le_val (firstn 4 (skipn 8 bs)) in
+  if (N.of_nat (length bs) - zN GenFreq.PREAMBLE_LONGS_NONEMPTY * 8) / 8 <? active then 0 else 16 * active.
+Definition fc_deser_table_slots (bs : list N) : N := 2 ^ (N.max (nth 4 bs 0) LG_MIN).
 
 (* the abstract view of a concrete sketch (table order) *)
 Definition fi_of_fc (c : fc) : fi :=
